@@ -42,7 +42,7 @@ type c13Run struct {
 func (r *c13Run) Sample() any { return r }
 
 var c13Kinds = []string{"valid-msg", "mutate-size", "mutate-header", "mutate-body", "garbage", "partial-flood", "endless", "bad-opn", "clo", "unknown-type",
-	"tiny", "abort", "wrong-channel", "wrong-token", "dup-final", "err-frame", "huge-string", "truncated", "huge-array-length"}
+	"tiny", "abort", "wrong-channel", "wrong-token", "dup-final", "err-frame", "huge-string", "truncated", "huge-array-length", "opn-service-in-msg"}
 
 const (
 	c13Buf       = 8192
@@ -177,6 +177,18 @@ func (r *c13Run) build(f c13Frame, channelID, tokenID uint32, seq *uint32, msgTy
 			binary.LittleEndian.PutUint32(body[len(body)-8:], n) // Results
 		}
 		return [][]byte{chunk('F', uint32(3000+f.A), body)}
+	case "opn-service-in-msg": // an OpenSecureChannel request / response travelling as an ordinary MSG
+		var body []byte
+		hdr := &ua.RequestHeader{AuthenticationToken: ua.NewTwoByteNodeID(0), Timestamp: time.Now(), AdditionalHeader: ua.NewExtensionObject(nil)}
+		switch f.B % 3 {
+		case 0:
+			body, _ = encodeService(&ua.OpenSecureChannelRequest{RequestHeader: hdr, RequestType: ua.SecurityTokenRequestTypeIssue, SecurityMode: ua.MessageSecurityModeNone, RequestedLifetime: 60000})
+		case 1:
+			body, _ = encodeService(&ua.OpenSecureChannelRequest{RequestHeader: hdr, RequestType: ua.SecurityTokenRequestTypeRenew, SecurityMode: ua.MessageSecurityModeSign, ClientNonce: make([]byte, 32), RequestedLifetime: 60000})
+		default:
+			body, _ = encodeService(&ua.OpenSecureChannelResponse{ResponseHeader: rawRespHeader(uint32(f.A), ua.StatusOK), SecurityToken: &ua.ChannelSecurityToken{ChannelID: channelID, TokenID: tokenID + 1, CreatedAt: time.Now(), RevisedLifetime: 60000}, ServerNonce: []byte{}})
+		}
+		return [][]byte{chunk('F', uint32(4000+f.A), body)}
 	case "truncated":
 		fr := chunk('F', uint32(f.A), validBody(64))
 		cut := 1 + f.B%(len(fr)-1)
